@@ -222,7 +222,7 @@ def run(ctx, eng):
                'threshold expression and on an induction over histories')
     cm.include(ctx, eng, 'C04', {'FLOW.delta', 'ARITH.open',
                                  'ARITH.consume', 'FLOW.init',
-                                 'FLOW.charge'},
+                                 'FLOW.charge', 'FLOW.queue'},
                'window and maximum track what was advertised: a local '
                'INITIAL_WINDOW_SIZE change reaches every stream, and the '
                'window arithmetic is exact (it may go negative)')
